@@ -88,8 +88,11 @@ def gen_cases(tier, seed):
             elif r < 0.9 and cred == "user":
                 if rng.random() < 0.35:
                     # the administrator revokes the list (removes the stored key) before granting another one: the session stays open
-                    ops.append(C(0, "remove $$permission_$bob")); dist["revocations"] = dist.get("revocations", 0) + 1
                     if rng.random() < 0.5:
+                        # the list has reached the disk: removing it leaves a tombstone in memory instead of dropping the key
+                        ops += [C(0, "snapshot false d1"), ["flush"]]; dist["revocations_after_snapshot"] = dist.get("revocations_after_snapshot", 0) + 1
+                    ops.append(C(0, "remove $$permission_$bob")); dist["revocations"] = dist.get("revocations", 0) + 1
+                    for _ in range(rng.randint(0, 3)):
                         t, kind = rng.choice(DATA_CMDS)
                         ops.append(C(1, t % rng.choice(KEYS))); dist["data_cmds"] += 1
                 perms = [(rng.choice(KINDSETS), [rng.choice(PATTERNS)])]
